@@ -160,7 +160,7 @@ def split_ranges(intsize, step, start, end):
         haslower = (start & mask) != 0
         hasupper = (end & mask) != mask
 
-        not_mask = ~mask & ((1 << intsize + 1) - 1)
+        not_mask = ~mask
         nextstart = (start + diff if haslower else start) & not_mask
         nextend = (end - diff if hasupper else end) & not_mask
 
